@@ -14,7 +14,9 @@ RULE = ("ALL patterns up to length L (quick 3, thorough 4) over the 5 slot kinds
         "defined next to an unrelated second macro and followed by a use built from the pattern; the engine must report MACRO_COMPILE_NON_LR at the "
         "file/line of the pattern's first token exactly when R6 finds a conflict, must never rewrite a use of a rejected pattern, must rewrite a use "
         "that R3 matches when the pattern is accepted, and must apply the second macro in every case; "
-        "non-trivial = every pattern of length >= 2; distinct by the pattern" % SYMS)
+        "plus SETS of 2-6 definitions mixing rejected and accepted patterns in every adjacency and priority, replayed rewrite by rewrite (error at "
+        "each rejected definition's position, rejected never applied, every accepted one applied as R3 predicts); "
+        "non-trivial = every pattern of length >= 2 / every set; distinct by the pattern or set" % SYMS)
 ASSUMPTIONS = ["R6 (vlib/ref/lr.py + patterns.py): textbook canonical LR(1) with the documented prefix rule, on the slot grammar as documented in macro.cpp's comment/structure",
                "R3 decides whether the generated use really derives from the pattern"]
 
@@ -37,7 +39,57 @@ def plan(tier, seed):
     n = 2000 if tier == "quick" else 40000
     for i in range(n // 250):
         specs.append({"kind": "rand", "seed": seed, "chunk": i, "n": 250})
+    n = 1600 if tier == "quick" else 32000
+    for i in range(n // 100):
+        specs.append({"kind": "sets", "seed": seed, "chunk": i, "n": 100})
     return specs
+
+
+# ---- sets of definitions: rejected and accepted patterns in every adjacency
+SET_POOL = ["<V>", "<ID> , <INT>", "<ID> @ <V>", "( <ARGS> )", "<P> FI", "<INT>", "<V> % <V>",        # mostly deterministic
+            "<P>", "<ARGS>", "<P> ; q", "<ARGS> , 7", "<V> <P>", "<ID> <ARGS>", "<P> ; <P> FI", "( <ARGS> , <V> )"]   # mostly not
+
+
+def set_source(r):
+    k = r.randint(2, 6)
+    lines = []
+    uses = []
+    for i in range(k):
+        pat = ("W%d " % i) + r.choice(SET_POOL)
+        prio = r.choice(["", "", "PRIO 3 ", "PRIO 9 "])
+        lines.append("DEFINE %s%s AS done%d END DEFINE" % (prio, pat, i))
+        use = []
+        for s_ in pat.split(" "):
+            use += FILL.get(s_, [s_])
+        uses.append(" ".join(use))
+    r.shuffle(uses)
+    return "\n".join(lines) + "\n" + " | ".join(uses)
+
+
+def work_sets(spec, part):
+    from . import macrocommon
+    r = common.rng(spec["seed"], "C12sets", spec["chunk"])
+    srcs = [set_source(r) for _ in range(spec["n"])]
+    cases = [{"mode": "macro", "main": "main", "files": {"main": t}, "opts": [("passes", 60), ("streams", 1), ("maxevents", 80)]} for t in srcs]
+    outs, _ = common.run_batch(cases)
+    for text, case, o in zip(srcs, cases, outs):
+        part["evals"] += 1
+        if common.abnormal(ID, case, o, part, "while compiling a set of macro patterns"):
+            continue
+        rp = macrocommon.replay({"main": text}, "main", o, 60)
+        if rp.nj:
+            part["stats"]["nj:" + rp.nj.split(":")[0]] += 1
+            continue
+        if rp.problems:
+            sig, msg = rp.problems[0]
+            part["violations"].append({"signature": "sets:" + sig, "message": msg, "case": common.slim_case(case)})
+            continue
+        part["stats"]["sets-checked"] += 1
+        part["stats"]["sets:patterns-rejected"] += rp.rejected
+        part["stats"]["sets:rewrites-replayed"] += rp.steps
+        part["nontrivial"].append(harness.chash(text))
+        if len(part["samples"]) < 1 and rp.rejected >= 2 and rp.steps >= 2:
+            part["samples"].append({"source": text, "non_linear_errors": [e[1:4] for e in o["app_errors"]], "output": " ".join(t[1] for t in o["out"])})
 
 
 def pats(spec):
@@ -65,6 +117,9 @@ def source(p):
 
 def work(spec):
     part = harness.new_partial()
+    if spec["kind"] == "sets":
+        work_sets(spec, part)
+        return part
     plist = list(pats(spec))
     cases = [{"mode": "macro", "main": "main", "files": {"main": source(p)}, "opts": [("passes", 40)]} for p in plist]
     outs, _ = common.run_batch(cases)
